@@ -683,11 +683,15 @@ func (s *Service) serve(nc Conn) error {
 	if s.workcond.L == nil {
 		s.workcond.L = &s.mu
 	}
+	// The queue state is reset under the mutex: a runWith call that passed
+	// its state check during a previous run may be taking the lock right now.
+	s.mu.Lock()
 	s.workbuf = make([]*work, s.inChannelSize)
 	s.workqueue = s.workbuf[:0]
 	verifGate("serve.init")
 	s.rwork = make(map[string]*work, s.inChannelSize)
 	verifNote("sv.init", "", s.workerCount)
+	s.mu.Unlock()
 	s.queryTQ = timerqueue.New(s.queryEventExpire, s.queryDuration)
 
 	// Start workers
